@@ -161,9 +161,14 @@ def run(prog, rep):
         ok, msg, where = True, "", fn.loc[0]
         nnew = 0
         zeroing = all(c.get("callee") == "p_malloc0" for (b, i, c) in fn.calls() if c.get("callee") in ("p_malloc", "p_malloc0"))
+        fixers_i = set(f for f, w in field_writers(u).items() if fld in w and {"left", "right"} <= w and f.startswith("pp_"))
         for (st, stmt, cur) in r.rets:
             al = st.tags.get("alloc")
             if al is None:
+                hs = [h for h in st.tags.get("helpers", ()) if h[0] in fixers_i]
+                if hs:
+                    ok, msg, where = False, "line %d: %s runs on a path that links no new node (a replaced pair or a failed allocation): its loop assumes the subtree at the node just grew, so ancestors' %s values are shifted and a spurious rotation can follow" % (
+                        hs[0][2], hs[0][0], fld), hs[0][2]
                 continue
             nnew += 1
             stores = st.tags.get("stores", ())
@@ -242,6 +247,9 @@ SELFTEST = [
          old="\t((PTreeAVLNode *) *cur_node)->balance_factor = 0;", new="\t((PTreeAVLNode *) *cur_node)->balance_factor = 1;"),
     dict(id="avl-retrace-from-removed-node", file="src/ptree-avl.c", expect="C13.4",
          old="\t\tpp_tree_avl_balance_remove ((PTreeAVLNode *) child_node, root_node);", new="\t\tpp_tree_avl_balance_remove ((PTreeAVLNode *) cur_node, root_node);"),
+    dict(id="avl-replace-runs-retrace", file="src/ptree-avl.c", expect="C13.4",
+         old="\t\t(*cur_node)->key   = key;\n\t\t(*cur_node)->value = value;\n\n\t\treturn FALSE;",
+         new="\t\t(*cur_node)->key   = key;\n\t\t(*cur_node)->value = value;\n\n\t\tpp_tree_avl_balance_insert (((PTreeAVLNode *) *cur_node), root_node);\n\n\t\treturn FALSE;"),
     # ---- C13.2 red-black fix-ups ----
     dict(id="rb-remove-fixup-stops-below-root", file="src/ptree-rb.c", expect="C13.2",
          old="\t\tif (P_UNLIKELY (node->parent == NULL))\n\t\t\tbreak;\n\n\t\tsibling = pp_tree_rb_get_sibling (node);",
